@@ -151,7 +151,7 @@ func (x *runner) generated() {
 	th := x.o.Thorough()
 	nSend, nRecv, nSchedRand, schedLen, nPipe, pipeMax, sendBudget := 140, 160, 120, 4, 24, 6000, 5000
 	if th {
-		nSend, nRecv, nSchedRand, schedLen, nPipe, pipeMax, sendBudget = 900, 1500, 1500, 5, 160, 60000, 20000
+		nSend, nRecv, nSchedRand, schedLen, nPipe, pipeMax, sendBudget = 800, 1500, 1200, 5, 100, 40000, 20000
 	}
 	if x.o.Search {
 		nSend, nRecv, nSchedRand, nPipe = nSend*4, nRecv*4, nSchedRand*4, nPipe*3
